@@ -103,12 +103,12 @@ func Run(run *vh.Run) {
 	he := &hdEnv{run: run, enc: c.Enc}
 	de := &docEnv{run: run, enc: c.Enc, idx: newHashIndex()}
 
-	nKeys := run.N(3000, 300000)
+	nKeys := run.N(3000, 150000)
 	nHD := run.N(3000, 300000)
 	nSearch := run.N(240, 8000)
 	nSearch2 := run.N(4, 64)
 	nDocs := run.N(1500, 60000)
-	nCpc := run.N(1500, 150000)
+	nCpc := run.N(1500, 75000)
 	nE2E := run.N(48, 1200)
 
 	he.vectors()
@@ -149,12 +149,12 @@ func Run(run *vh.Run) {
 	run.Floor("searched derivations: non-hardened child of a leading-zero key", run.Get("hd.class:searched:leading-zero-intermediate"), scale(q(20, 600)))
 	run.Floor("searched derivations: two leading zero bytes", run.Get("hd.class:searched-lz2:leading-zero-intermediate-before-hardened-2bytes")+
 		run.Get("hd.class:searched-lz2:leading-zero-intermediate-2bytes"), scale(q(2, 30)))
-	run.Floor("published vectors passed", run.Get("hd.vector-ok:bip32-reference")+run.Get("hd.vector-ok:bip39-seed")+run.Get("hd.vector-ok:ethereum-wallet"), 17+5+12)
-	run.Floor("keys with leading zero byte(s)", run.Get("key.shape:lz1")+run.Get("key.shape:lz2+"), scale(q(200, 20000)))
+	run.Floor("published vectors passed", run.Get("hd.vector-ok:bip32-reference")+run.Get("hd.vector-ok:bip39-seed")+run.Get("hd.vector-ok:ethereum-wallet")+run.Get("hd.vector-ok:default-path"), 17+5+12+1)
+	run.Floor("keys with leading zero byte(s)", run.Get("key.shape:lz1")+run.Get("key.shape:lz2+"), scale(q(200, 10000)))
 	for _, cls := range []string{"msg-bit:rs", "sig-r-bit:rsv", "sig-s-bit:rs", "key-other:rsv", "key-negated:rs"} {
-		run.Floor("signature perturbation "+cls, run.Get("sig.rejected:"+cls), scale(q(1400, 140000)))
+		run.Floor("signature perturbation "+cls, run.Get("sig.rejected:"+cls), scale(q(1400, 70000)))
 	}
-	run.Floor("encoding round trips", ke.encOK.Load(), scale(q(3000*13/2, 300000*13/2)))
+	run.Floor("encoding round trips", ke.encOK.Load(), scale(q(3000*13/2, 150000*13/2)))
 	for _, f := range formats {
 		base, grp := q(700, 28000), q(300, 12000)
 		if f == fmtAminoTx { // only the documents the handler renders differently from StdSignBytes (about 1 in 13)
@@ -165,8 +165,8 @@ func Run(run *vh.Run) {
 			run.Floor("hash comparisons "+f+":"+g, run.Get("doc.hash-differs:"+f+":"+g), scale(grp))
 		}
 	}
-	run.Floor("cpc typed-message perturbations compared", ke.cpcCompared.Load(), scale(q(3000, 300000)))
-	run.Floor("end-to-end: EIP-712-signed transactions accepted", run.Get("e2e.good-accepted"), scale(q(24, 600)))
+	run.Floor("cpc typed-message perturbations compared", ke.cpcCompared.Load(), scale(q(3000, 150000)))
+	run.Floor("end-to-end: EIP-712-signed transactions accepted", run.Get("e2e.good-accepted"), scale(q(20, 500)))
 	run.Floor("end-to-end: tampered transactions refused", run.Get("e2e.tampered-refused"), scale(q(24, 600)))
 	// per message type: every kind was compared at least a few times in every tier
 	kindsSeen := map[string]bool{}
